@@ -43,9 +43,16 @@ FAULT_MESSAGES = ["injected fault in %s", "utilisation above 95%% in %s", "bad k
                   "{0} {self} %%s %%d in %s", "", "line one\nline two %s",
                   "\u00e9v\u00e9nement %s \u2713", "%s" + " x" * 400]
 
+class HandlerGaveUp(BaseException):
+    """A user failure class that derives from BaseException, not Exception."""
+
+
 EXC_TYPES = {"RuntimeError": RuntimeError, "ValueError": ValueError,
              "ZeroDivisionError": ZeroDivisionError, "KeyError": KeyError,
-             "DSOLError": DSOLError, "AssertionError": AssertionError}
+             "DSOLError": DSOLError, "AssertionError": AssertionError,
+             # failures outside Exception: sys.exit() in a handler, an interrupt, own classes
+             "SystemExit": SystemExit, "KeyboardInterrupt": KeyboardInterrupt,
+             "HandlerGaveUp": HandlerGaveUp}
 
 
 from vf.simrun_quiet import quiet  # noqa: E402,F401
@@ -230,7 +237,10 @@ class SubEventA(SimEvent):
 
 
 class SubEventB(SimEvent):
-    pass
+    """... and one that is a container (a batch of zero items): falsy."""
+
+    def __len__(self):
+        return 0
 
 
 class CustomEvent(SimEventInterface):
@@ -465,8 +475,13 @@ class Runner:
         elif kind == "fail":
             self.fault("handler_raise")
             H.append(("req", owner, idx, "raise"))
-            raise EXC_TYPES[a[1]](FAULT_MESSAGES[int(owner or 0) % len(FAULT_MESSAGES)]
-                                  % owner)
+            exc = EXC_TYPES[a[1]]
+            if not issubclass(exc, Exception) and self.is_custom_event(owner):
+                # failures outside Exception are only injected into handlers that the
+                # library's own SimEvent.execute calls (it contains everything); what an
+                # own SimEventInterface implementation lets escape is its own business
+                exc = RuntimeError
+            raise exc(FAULT_MESSAGES[int(owner or 0) % len(FAULT_MESSAGES)] % owner)
         elif kind == "cmd":
             self.do_cmd_from_callback(a[1:], "handler", owner, idx)
         elif kind == "nested":
@@ -547,6 +562,21 @@ class Runner:
             return "refused:ValueError"
         except Exception as e:
             return "refused:" + type(e).__name__
+
+    def is_custom_event(self, eid):
+        """Was event `eid` scheduled as an own SimEventInterface implementation?"""
+        if not isinstance(eid, int) and not (isinstance(eid, str) and eid.isdigit()):
+            return False
+        e = int(eid)
+        if e in self.prog.get("badsig", ()):
+            return False
+        pre = [a[2] for a in self.prog["roots"] if a[0] == "pre"]
+        if e in pre:
+            return False
+        ce = self.prog.get("custom_events")
+        if ce in ("subclass", "both") and e % 3 != 0:
+            return False
+        return ce in (True, "both") and e % 3 == 0
 
     def run_nested(self, spec, owner, idx):
         """A second simulator in the same process, created, run to its end and
@@ -779,7 +809,7 @@ class Runner:
             out = "DSOLError"
         except detsim.DetsimAbort:
             raise
-        except Exception as e:
+        except BaseException as e:      # (a handler failure may derive from BaseException)
             out = "exc:" + type(e).__name__
         finally:
             self.watch(det, lt)
@@ -824,7 +854,7 @@ class Runner:
             out = "DSOLError"
         except detsim.DetsimAbort:
             raise
-        except Exception as e:
+        except BaseException as e:      # (a handler failure may derive from BaseException)
             out = "exc:" + type(e).__name__
         finally:
             self.watch(det, lt)
